@@ -316,6 +316,7 @@ func c28CodecGen(r *vh.Rand, tier string, n int) []c28CodecIn {
 		{Name: b("/my dir/x"), Dir: b("/tmp/a\tb"), Type: b("ext 4"), Opts: [][]byte{b("x-snapd.symlink=/a b"), b("ro")}, Freq: -1, Pass: 9223372036854775807},
 		{Name: b("a"), Dir: b("b"), Type: b("c"), Opts: [][]byte{b("d")}, Freq: -9223372036854775808, Pass: 10},
 		{Name: b("\ra"), Dir: b("b"), Type: b("c"), Opts: [][]byte{b("d")}},
+		{Name: b("/a/b"), Dir: b("/a/b"), Type: b(""), Opts: [][]byte{b("rbind"), b("x-snapd.synthetic"), b("x-snapd.needed-by=/a/c"), b("x-snapd.detach")}},
 		{Name: b("a\r"), Dir: b("b\r"), Type: b("\rc"), Opts: [][]byte{b("d\r")}},
 	}
 	for _, e := range edge {
@@ -700,7 +701,13 @@ func c28ChangesExec(h c28Hist) vh.Out {
 		sim := &c28Sim{writable: map[string]bool{}, created: map[string][]string{}}
 		current := &osutil.MountProfile{}
 		for k := 0; k <= h.K && k < len(h.Steps); k++ {
-			ctx := &c28Ctx{desired: &osutil.MountProfile{Entries: c28Entries(root, h.Steps[k])}, current: current}
+			desiredProfile := &osutil.MountProfile{Entries: c28Entries(root, h.Steps[k])}
+			if dt, err := osutil.SaveMountProfileText(desiredProfile); err == nil { // desired profiles are read from a file too
+				if dp, err := osutil.LoadMountProfileText(dt); err == nil && len(dp.Entries) == len(desiredProfile.Entries) {
+					desiredProfile = dp
+				}
+			}
+			ctx := &c28Ctx{desired: desiredProfile, current: current}
 			made = nil
 			changePerform = func(c *Change, as *Assumptions) ([]*Change, error) {
 				synth, err := sim.perform(c, as)
@@ -733,7 +740,19 @@ func c28ChangesExec(h c28Hist) vh.Out {
 					}
 				}
 				ages = newAges
-				current = ctx.saved
+				// the next update reads the profile back from its text form, as the real context does through a file
+				// (synthetic bind entries come back with type none instead of an empty type)
+				text, err := osutil.SaveMountProfileText(ctx.saved)
+				if err != nil {
+					panic(err)
+				}
+				current, err = osutil.LoadMountProfileText(text)
+				if err != nil {
+					panic(fmt.Sprintf("saved profile does not load: %v\n%s", err, text))
+				}
+				if len(current.Entries) != len(ctx.saved.Entries) {
+					panic("saved profile loads with a different number of entries")
+				}
 			}
 		}
 	}
